@@ -68,6 +68,24 @@ func extraBase(t *rapid.T, p *gen.Pool) []string {
 	return rapid.SampledFrom(all).Draw(t, "extra")
 }
 
+// partialFailure builds a multi-argument write whose LAST argument is invalid in a way that is only
+// detected while the command is applied, after the earlier arguments were already put into the
+// store's shared write batch: the error reply must leave nothing behind, not even for the next write.
+func partialFailure(t *rapid.T, p *gen.Pool) []string {
+	k := ns + ":" + rapid.SampledFrom(p.Keys).Draw(t, "pfkey")
+	k2 := ns + ":" + rapid.SampledFrom(p.Keys).Draw(t, "pfkey2")
+	m := func() string { return rapid.SampledFrom(p.Members).Draw(t, "pfm") }
+	v := func() string { return rapid.SampledFrom(p.Values).Draw(t, "pfv") }
+	long := longName(10241)
+	return rapid.SampledFrom([][]string{
+		{"sadd", k, m(), long}, {"srem", k, m(), long}, {"srem", k, m(), m(), long},
+		{"hmset", k, m(), v(), long, v()}, {"hdel", k, m(), long}, {"hdel", k, m(), m(), long},
+		{"zadd", k, "1", m(), "2", long}, {"zrem", k, m(), long}, {"zrem", k, m(), m(), long},
+		{"plset", k, v(), ns + ":notable", v()}, {"plset", k, v(), k2, v(), ns + ":t:" + long, v()}, {"plset", k, v(), ns + ":" + longName(300) + ":k", v()},
+		{"del", k, ns + ":notable"}, {"del", k, k2, ns + ":t:" + long},
+	}).Draw(t, "partial")
+}
+
 func mutate(t *rapid.T, c []string) ([]string, []string) {
 	c = append([]string(nil), c...)
 	var muts []string
@@ -174,16 +192,19 @@ func proposed(s *simkv.Sim) int {
 	return n
 }
 
+// isErrReply: the command as a whole failed. PLSET answers once per pair and is not atomic across
+// partitions: with some pairs stored and others refused it did not fail as a whole (the twin gets
+// the same command and must end up the same).
 func isErrReply(r simkv.Reply) bool {
 	if r.Malformed != "" || len(r.Vals) == 0 {
 		return true
 	}
 	for _, v := range r.Vals {
-		if v.Kind == 'e' {
-			return true
+		if v.Kind != 'e' {
+			return false
 		}
 	}
-	return false
+	return true
 }
 
 func runCase(t *rapid.T, engine string, parts int, recName string) {
@@ -233,7 +254,12 @@ func runCase(t *rapid.T, engine string, parts int, recName string) {
 		c := base
 		var muts []string
 		if i >= nprefix {
-			c, muts = mutate(t, base)
+			if rapid.IntRange(0, 5).Draw(t, "partialfailure") == 0 {
+				c, muts = partialFailure(t, pool), []string{"last argument invalid at apply time"}
+				base = c
+			} else {
+				c, muts = mutate(t, base)
+			}
 		}
 		if len(c) == 0 {
 			continue
@@ -420,6 +446,15 @@ func TestKnownJSONPathHugeIndex(t *testing.T) {
 // normReply renders a reply for comparison; JSON.OBJKEYS lists the members of an object in
 // map order, so its elements are compared as a set.
 func normReply(name string, r simkv.Reply) string {
+	if strings.ToLower(name) == "plset" {
+		// one reply per pair, written per partition group in map order: compared as a multiset
+		var el []string
+		for _, v := range r.Vals {
+			el = append(el, v.String())
+		}
+		sort.Strings(el)
+		return strings.Join(el, " | ")
+	}
 	if strings.ToLower(name) == "json.objkeys" && len(r.Vals) == 1 && r.Vals[0].Kind == 'a' {
 		var el []string
 		for _, v := range r.Vals[0].A {
